@@ -38,7 +38,7 @@ func Props() []kit.Runner {
 			Gen: GenRaw, Check: CheckRaw, Classify: ClassifyRaw},
 		kit.Prop[ECase]{ID: "C07", Name: "encoding", Rule: ruleEnc, Quick: 30000, Thorough: 250000,
 			Gen: GenEnc, Check: CheckEnc, Classify: ClassifyEnc},
-		kit.Prop[HCase]{ID: "C07", Name: "handler406", Rule: ruleHandler, Quick: 1200, Thorough: 8000,
+		kit.Prop[HCase]{ID: "C07", Name: "handler406", Rule: ruleHandler, Quick: 1200, Thorough: 5000,
 			Gen: GenHandler, Check: CheckHandler, Classify: ClassifyHandler},
 	}
 }
